@@ -100,6 +100,8 @@ func (e *editor) Enter(n js.INode) js.IVisitor {
 }
 func (e *editor) Exit(n js.INode) {}
 
+func asciiLower(s string) string { return strings.ToLower(s) }
+
 func tokenLoop(sb *strings.Builder, step func(), next func() (int, string, bool)) {
 	for i := 0; i < 10000; i++ {
 		tt, s, more := next()
@@ -442,6 +444,11 @@ var All = []Body{
 				step()
 			}
 		}
+		for _, hs := range []string{"color", "margin", "font-family", "important"} {
+			h := css.ToHash([]byte(hs))
+			appendProbe(&sb, "hash", h.Bytes(), 'x')
+		}
+		fmt.Fprintf(&sb, "%d %d ", css.ToHash([]byte("margin-top")), css.ToHash([]byte("font")))
 		r, g, b := css.HSL2RGB(0.3+float64(v)/10, 0.5, 0.4)
 		fmt.Fprintf(&sb, "%.4f %.4f %.4f %s", r, g, b, css.ToHash([]byte("margin")).String())
 		return sb.String()
@@ -489,10 +496,13 @@ var All = []Body{
 			}
 			step()
 		}
-		for _, s := range []string{"div", "SCRIPT", "aria-label", "nope", "textarea"} {
-			h := html.ToHash(pick(0, s))
+		for _, s := range []string{"div", "SCRIPT", "aria-label", "nope", "textarea", "title"} {
+			h := html.ToHash(pick(0, asciiLower(s)))
 			fmt.Fprintf(&sb, "%d:%s ", h, h)
+			// what a caller gets from Bytes() is theirs to append to
+			appendProbe(&sb, "hash", h.Bytes(), 'x')
 		}
+		fmt.Fprintf(&sb, "%d %d", html.ToHash([]byte("title")), html.ToHash([]byte("iframe")))
 		return sb.String()
 	}},
 	// ---- package xml ----
